@@ -256,6 +256,26 @@ func (w *World) opRootCheck(op *Op) {
 					return -c, err
 				}})
 				add(rootPerturb{name: "loader-keycompare-constant", root: base, cacheOK: true, cmp: func(a, b interface{}) (int, error) { return 0, nil }})
+				// a coarser order than the one the tree was written under: two adjacent keys of the top
+				// node (not its first two) compare equal, everything else as before
+				for _, pos := range []int{1, n - 2} {
+					if pos < 1 || pos+1 >= n {
+						continue
+					}
+					ia, oka := w.keyIndexFromBody(dn.Keys[pos])
+					ib, okb := w.keyIndexFromBody(dn.Keys[pos+1])
+					if !oka || !okb {
+						continue
+					}
+					sa, sb := keyString(w.kd.Key(ia)), keyString(w.kd.Key(ib))
+					add(rootPerturb{name: "loader-keycompare-coarser/at-" + posName(pos-1, n-1), root: base, cacheOK: true, cmp: func(a, b interface{}) (int, error) {
+						ka, kb := keyString(a), keyString(b)
+						if (ka == sa && kb == sb) || (ka == sb && kb == sa) {
+							return 0, nil
+						}
+						return baseCmp(a, b)
+					}})
+				}
 			}
 			// 6. recorded height / branch factor under which some top key's layer < height
 			if n >= 1 {
